@@ -12,7 +12,7 @@ use serde_json::{json, Value};
 use std::path::{Path, PathBuf};
 use std::str::FromStr;
 
-const LINES: [&[u8]; 6] = [b"a\n", b"$NetBSD: p,v 1.1 $\n", b"b $NetBSD$ c\n", b"\n", b"\x00\xff\n", b"z"];
+const LINES: [&[u8]; 7] = [b"a\n", b"$NetBSD: p,v 1.1 $\n", b"b $NetBSD$ c\n", b"\n", b"\x00\xff\n", b"z", b"${V} $x $NetBSD: y $\r\n"];
 
 fn model_hash(algo: &str, content: &[u8], patch: bool) -> String {
     if patch {
@@ -193,6 +193,9 @@ fn contents(max_lines: usize) -> Vec<Vec<u8>> {
     };
     // 'z' (unterminated) may only come last
     seqs::dfs(LINES.len(), max_lines, &mut pre, &|s: &[usize]| s.len() >= 2 && s[..s.len() - 1].contains(&5), &mut visit);
+    // CR LF line endings and a final line without terminator holding the marker
+    out.push(b"a\r\nb\r\n".to_vec());
+    out.push(b"a\n$NetBSD$".to_vec());
     out
 }
 
@@ -255,7 +258,7 @@ fn sweep_content(run: &Run, t: &mut Tally, dir: &Path, content: &[u8], algos: &[
 
 // ---- lookup ----
 
-const RECORDED: [&str; 5] = ["f", "d/f", "e/d/f", "x/f", "g"];
+const RECORDED: [&str; 6] = ["f", "d/f", "e/d/f", "x/f", "g", ""];
 
 fn lookup_model(recorded: &[String], path: &str) -> Option<String> {
     let comps: Vec<&str> = path.split('/').filter(|c| !c.is_empty()).collect();
@@ -342,14 +345,14 @@ fn main() {
          -> Checksum(name, algo, expected, actual); recorded size +-1 / 0 / 2^64-1 -> Size(name, \
          expected, actual); every byte of a short file incremented / deleted / inserted -> verdict \
          recomputed from the model digest; unrecorded algorithm / size -> Missing*. Lookup: every \
-         subset of 5 recorded names (nested sub-directory tails) x 10 lookup paths, distfiles and \
-         patches. Non-trivial = configurations where something does not match.",
+         subset of 6 recorded names (nested sub-directory tails, an empty name) in both recording \
+         orders x 10 lookup paths, distfiles and patches. Non-trivial = configurations where something does not match.",
     );
     run.assume("digest oracle = RustCrypto one-shot functions, self-tested against published vectors (mc/core/src/model/digest.rs)");
     run.assume("only plain files on a local file system; no symlinks or permission errors");
 
     let scratch = run.scratch_dir();
-    let nlines = run.pick(2, 4);
+    let nlines = run.pick(3, 4);
     let cs = contents(nlines);
     run.bound(format!("{} contents of <= {} lines x 2 kinds x {} algorithms; every hash position for contents of <= 2 lines, 3 positions otherwise", cs.len(), nlines, if run.thorough() { 6 } else { 6 }));
     par_items(&run, "C12 contents", &cs, |i, content, t| {
@@ -372,20 +375,24 @@ fn main() {
         format!("{}/f", root), format!("{}/d/f", root), format!("{}/e/d/f", root), format!("{}/x/d/f", root),
         format!("{}/x/f", root), format!("{}/g", root), format!("{}/h", root), "f".to_string(), "d/f".to_string(), "q/e/d/f".to_string(),
     ];
-    run.bound("lookup: 32 recorded-name subsets x 10 lookup paths x {distfile names, patch names}");
-    let masks: Vec<u32> = (0..32).collect();
+    run.bound("lookup: 64 recorded-name subsets (incl. an empty recorded name) x 2 recording orders x 10 lookup paths x {distfile names, patch names}");
+    let masks: Vec<u32> = (0..64).collect();
     par_items(&run, "C12 lookup", &masks, |_, mask, t| {
         for patch in [false, true] {
             let rec: Vec<String> = RECORDED
                 .iter()
                 .enumerate()
                 .filter(|(i, _)| mask >> i & 1 == 1)
-                .map(|(_, n)| if patch { match n.rfind('/') { Some(k) => format!("{}/patch-{}", &n[..k], &n[k + 1..]), None => format!("patch-{}", n) } } else { n.to_string() })
+                .map(|(_, n)| if patch && !n.is_empty() { match n.rfind('/') { Some(k) => format!("{}/patch-{}", &n[..k], &n[k + 1..]), None => format!("patch-{}", n) } } else { n.to_string() })
                 .collect();
+            // both recording orders: the entry found must not depend on which name was recorded first
+            let mut rev = rec.clone();
+            rev.reverse();
             for p in &paths {
                 let p = if patch { match p.rfind('/') { Some(k) => format!("{}/patch-{}", &p[..k], &p[k + 1..]), None => format!("patch-{}", p) } } else { p.clone() };
-                t.states += 1;
+                t.states += 2;
                 check_lookup(t, &rec, &p);
+                check_lookup(t, &rev, &p);
             }
         }
     });
